@@ -63,12 +63,12 @@ type Expr struct {
 	Keys []string // ORecLit, parallel to Args
 }
 
-func L(v Val) *Expr                  { return &Expr{Op: OLit, Val: v} }
-func Var(name string) *Expr          { return &Expr{Op: OVar, Str: name} }
-func Un(op Op, a *Expr) *Expr        { return &Expr{Op: op, Args: []*Expr{a}} }
-func Bin(op Op, a, b *Expr) *Expr    { return &Expr{Op: op, Args: []*Expr{a, b}} }
-func If(c, t, e *Expr) *Expr         { return &Expr{Op: OIf, Args: []*Expr{c, t, e}} }
-func Is(a *Expr, typ string) *Expr   { return &Expr{Op: OIs, Args: []*Expr{a}, Str: typ} }
+func L(v Val) *Expr                { return &Expr{Op: OLit, Val: v} }
+func Var(name string) *Expr        { return &Expr{Op: OVar, Str: name} }
+func Un(op Op, a *Expr) *Expr      { return &Expr{Op: op, Args: []*Expr{a}} }
+func Bin(op Op, a, b *Expr) *Expr  { return &Expr{Op: op, Args: []*Expr{a, b}} }
+func If(c, t, e *Expr) *Expr       { return &Expr{Op: OIf, Args: []*Expr{c, t, e}} }
+func Is(a *Expr, typ string) *Expr { return &Expr{Op: OIs, Args: []*Expr{a}, Str: typ} }
 func IsIn(a *Expr, typ string, b *Expr) *Expr {
 	return &Expr{Op: OIsIn, Args: []*Expr{a, b}, Str: typ}
 }
